@@ -909,6 +909,15 @@ func c15(c *Ctx) {
 									return true
 								}
 							}
+							// the component itself is nil — also when the Shutdown call on it sits in a literal further in (a
+							// goroutine that performs the call): same variable
+							if xo := objOf(info, x); xo != nil {
+								for _, s := range sites {
+									if r, m := methodCall(info, s.call); m != nil && m.Name() == "Shutdown" && objOf(info, r) == xo {
+										return true
+									}
+								}
+							}
 							return false
 						})
 						if ok && !nn {
